@@ -13,6 +13,7 @@ use super::ir_sexp::{args_to_sexp, data_view, ir_to_sexp};
 use super::query_gen::{GenQuery, QueryKnobs, gen_query};
 use super::run::{args_error_names, compile, real_args};
 use super::schema_gen::{GenSchema, SchemaKnobs, gen_schema};
+use super::tagged_regex::{N_TEMPLATES, tr_dataset, tr_query, tr_schema};
 use tfharness::framework::Tier;
 use tfharness::rng::Rng;
 use tfharness::sexp::{Sexp, hex};
@@ -28,7 +29,8 @@ pub struct WorldKnobs {
 }
 
 impl WorldKnobs {
-    /// quick: 40 schemas × 2 datasets × 10 queries; thorough: 10× as many schemas.
+    /// quick: 40 schemas × 2 datasets × 10 queries; thorough: 10× as many schemas. `gen_worlds` appends
+    /// `n_tagged_regex_worlds` directed worlds (quick 4, thorough 40) × 2 datasets × 8 queries.
     pub fn for_tier(tier: Tier) -> WorldKnobs {
         WorldKnobs {
             n_schemas: if tier == Tier::Quick { 40 } else { 400 },
@@ -153,6 +155,20 @@ pub fn compile_query(schema: &GenSchema, real: &Schema, gq: GenQuery) -> WorldQu
     }
 }
 
+fn count_query(stats: &mut GenStats, wq: &WorldQuery) {
+    stats.generated += 1;
+    match &wq.compiled {
+        Ok(_) => {
+            stats.accepted += 1;
+            for f in &wq.gq.features {
+                *stats.features.entry(f.clone()).or_default() += 1;
+            }
+        }
+        Err(Rejection::Frontend(names)) => *stats.frontend_rejected.entry(names.join("+")).or_default() += 1,
+        Err(Rejection::Args(names)) => *stats.args_rejected.entry(names.join("+")).or_default() += 1,
+    }
+}
+
 pub fn gen_world(rng: &mut Rng, knobs: &WorldKnobs, stats: &mut GenStats) -> World {
     let schema = gen_schema(rng, &knobs.schema);
     let real = schema.to_real();
@@ -161,25 +177,50 @@ pub fn gen_world(rng: &mut Rng, knobs: &WorldKnobs, stats: &mut GenStats) -> Wor
     for _ in 0..knobs.n_queries {
         let gq = gen_query(rng, &schema, &knobs.query);
         let wq = compile_query(&schema, &real, gq);
-        stats.generated += 1;
-        match &wq.compiled {
-            Ok(_) => {
-                stats.accepted += 1;
-                for f in &wq.gq.features {
-                    *stats.features.entry(f.clone()).or_default() += 1;
-                }
-            }
-            Err(Rejection::Frontend(names)) => *stats.frontend_rejected.entry(names.join("+")).or_default() += 1,
-            Err(Rejection::Args(names)) => *stats.args_rejected.entry(names.join("+")).or_default() += 1,
-        }
+        count_query(stats, &wq);
         queries.push(wq);
     }
     let schema_sexp = schema.to_sexp();
     World { schema, schema_sexp, real, datasets, queries }
 }
 
+/// Number of DIRECTED "tagged-regex" worlds appended to a run of `gen_worlds` (derived from the number
+/// of random schemas so that every tier has a few: quick 40 schemas → 4, thorough 400 → 40).
+pub fn n_tagged_regex_worlds(knobs: &WorldKnobs) -> usize {
+    if knobs.n_schemas == 0 { 0 } else { (knobs.n_schemas / 10).clamp(2, 40) }
+}
+
+/// One world of the directed family `tagged_regex`: its small schema, `n_datasets` datasets whose
+/// tagged `String` property comes in runs from a small pool of valid / invalid patterns and null, and
+/// up to `N_TEMPLATES` (= 8) queries, one per template in a random order: a `regex` / `not_regex`
+/// filter whose operand is that tag, on the same vertex, a neighbour, inside `@optional`, inside a
+/// (nested) `@fold`, with the tag on the root or an inner vertex or inside an `@optional` scope.
+pub fn gen_tagged_regex_world(rng: &mut Rng, knobs: &WorldKnobs, stats: &mut GenStats) -> World {
+    let schema = tr_schema(rng);
+    let real = schema.to_real();
+    let datasets = (0..knobs.n_datasets).map(|_| tr_dataset(rng, &schema)).collect();
+    let mut order: Vec<usize> = (0..N_TEMPLATES).collect();
+    for i in (1..order.len()).rev() {
+        order.swap(i, rng.below(i + 1));
+    }
+    let mut queries = vec![];
+    for template in order.into_iter().take(knobs.n_queries.clamp(4, N_TEMPLATES)) {
+        let gq = tr_query(rng, &schema, template);
+        let wq = compile_query(&schema, &real, gq);
+        count_query(stats, &wq);
+        queries.push(wq);
+    }
+    let schema_sexp = schema.to_sexp();
+    World { schema, schema_sexp, real, datasets, queries }
+}
+
+/// `n_schemas` random worlds followed by the directed worlds (appended, so that the random worlds of a
+/// seed are the same as before the directed family existed); everything from the one `rng`.
 pub fn gen_worlds(rng: &mut Rng, knobs: &WorldKnobs) -> (Vec<World>, GenStats) {
     let mut stats = GenStats::default();
-    let worlds = (0..knobs.n_schemas).map(|_| gen_world(rng, knobs, &mut stats)).collect();
+    let mut worlds: Vec<World> = (0..knobs.n_schemas).map(|_| gen_world(rng, knobs, &mut stats)).collect();
+    for _ in 0..n_tagged_regex_worlds(knobs) {
+        worlds.push(gen_tagged_regex_world(rng, knobs, &mut stats));
+    }
     (worlds, stats)
 }
